@@ -8,6 +8,7 @@ mod c16;
 mod c18;
 mod c10;
 mod eg;
+mod egx;
 
 fn main() {
     common::install_panic_hook();
@@ -24,6 +25,7 @@ fn main() {
         "c18" => c18::main(&a),
         "c10" => c10::main(&a),
         "eg" => eg::main(&a),
+        "egx" => egx::main(&a),
         "features" => {
             println!("checks={} explanations={}", cfg!(feature = "checks"), cfg!(feature = "explanations"));
         }
